@@ -172,6 +172,9 @@ Theorem C10_source_facts :
   gen_advertise_increments_metric = 3%N /\
   (* AddRoute is one write-lock region in every table; every Process*Advertise
      stores the delivering peer as the next hop *)
+  (* the four disconnect calls are unconditional top-level statements of
+     agent.handlePeerDisconnect: no guard, no early return before the last *)
+  gen_disconnect_calls_unconditional = true /\
   gen_addroute_atomic = [true; true; true; true] /\
   gen_learned_nexthop_is_delivering_peer = [true; true; true; true].
 Proof. repeat split; reflexivity. Qed.
